@@ -55,6 +55,7 @@ type layout struct {
 	Backend                     string
 	Warm, Record                bool
 	PMode                       string
+	OMode, IMode                string
 	Probe                       bool
 }
 
@@ -85,6 +86,8 @@ type result struct {
 	OnTablePoint int            `json:"on_table_point_values"` // inputs / states placed exactly on parameter-table points
 	ViewVariant int             `json:"view_variant"`
 	ViewRuns   int              `json:"view_runs"`
+	Unwritten  []int            `json:"unwritten_per_output,omitempty"` // dirty outputs: untouched elements per output
+	PerOutput  int              `json:"elements_per_output,omitempty"`
 	SecondRuns int              `json:"second_runs"` // Run called again on the same input/parameter objects
 	Digest  string              `json:"digest,omitempty"` // sha256 of the output and state arrays after the vectorised run
 	Extra   map[string]interface{} `json:"extra,omitempty"`
@@ -166,6 +169,10 @@ func genScalar(model string, p sim.ParameterDescription, rng *rand.Rand, mode dr
 			return v * 100, "x100"
 		}
 		return -v, "negated"
+	case "def": // the documented default (when there is one)
+		if p.Default != 0 {
+			return p.Default, "default"
+		}
 	}
 	return v, "inside"
 }
@@ -397,6 +404,14 @@ func bitsEqual(a, b []float64) int {
 	return -1
 }
 
+// what a re-used output array holds before Run: a NaN payload and a large finite value, alternating
+func staleOut(off int) float64 {
+	if off%2 == 0 {
+		return math.Float64frombits(0x7ff8dead00000000 | uint64(off&0xffff))
+	}
+	return 3.25e300 + float64(off%1000)*1e287
+}
+
 // ---------------------------------------------------------------- the RUN case
 
 func runCase(t []string) *result {
@@ -420,8 +435,19 @@ func runCase(t []string) *result {
 			mode.rot, _ = strconv.Atoi(t[13][4:])
 		} else if t[13] == "out" {
 			mode.kind = "out"
+		} else if t[13] == "def" {
+			mode.kind = "def"
 		}
 	}
+	// t[15]: "dirty" = the needed part of the output array is PRE-FILLED with a sentinel pattern (a NaN
+	// payload and a large finite value, alternating) instead of zeros: a caller re-using an output array;
+	// t[16]: forcing: rand | zero (every input series all zero) | zeroK (input K all zero) | const
+	dirtyOut := len(t) > 15 && t[15] == "dirty"
+	imode := "rand"
+	if len(t) > 16 {
+		imode = t[16]
+	}
+	L.OMode, L.IMode = map[bool]string{true: "dirty", false: "zero"}[dirtyOut], imode
 	probeVec := false
 	if len(t) > 14 {
 		L.Probe = t[14] == "1"
@@ -514,6 +540,23 @@ func runCase(t []string) *result {
 			I[k] = 10 * rng.Float64()
 		}
 	}
+	switch {
+	case imode == "zero":
+		for k := range I {
+			I[k] = 0
+		}
+	case imode == "const":
+		for k := range I {
+			I[k] = I[(k/maxInt(L.T, 1))*L.T] // every series constant (its first value)
+		}
+	case strings.HasPrefix(imode, "zero"):
+		kz, _ := strconv.Atoi(imode[4:])
+		for k := range I {
+			if L.NI > 0 && (k/maxInt(L.T, 1))%L.NI == kz%L.NI {
+				I[k] = 0
+			}
+		}
+	}
 	// dimensioned models, edge mode: about half of the input values lie EXACTLY on a point of one of the
 	// parameter tables (first, interior, repeated, last) of one of the parameter sets
 	var tablePoints []float64
@@ -580,6 +623,8 @@ func runCase(t []string) *result {
 	for off := range O {
 		if !needed(off) {
 			O[off] = canary(off)
+		} else if dirtyOut {
+			O[off] = staleOut(off)
 		}
 	}
 	orig := arrays{P: P, S: S, I: I, O: O}
@@ -729,6 +774,8 @@ func runCase(t []string) *result {
 		res.ViewRuns = 1
 	}
 
+	unwritten := make([]int, L.NOut) // per output: elements of the needed part the vectorised run left untouched (dirty mode)
+
 	// (B) N single-cell runs
 	maxDims := append([]int(nil), L.MaxDims...)
 	for i := 0; i < L.N; i++ {
@@ -771,6 +818,16 @@ func runCase(t []string) *result {
 				for tt := 0; tt < L.T; tt++ {
 					a := A.O[(i*L.OK+k)*L.OT+tt]
 					b := o1[k*L.T+tt]
+					if dirtyOut && math.Float64bits(a) == math.Float64bits(staleOut((i*L.OK+k)*L.OT+tt)) {
+						// the vectorised run did NOT write this element (it still holds the stale value)
+						if variant == 0 {
+							unwritten[k]++
+						}
+						if math.Float64bits(b) != 0 {
+							fail("cell %d output %d t %d: not written by the vectorised run (stale value kept) but the single-cell run on a fresh array gives %v", i, k, tt, b)
+						}
+						continue
+					}
 					if math.Float64bits(a) != math.Float64bits(b) {
 						fail("cell %d output %d t %d: vectorised %v (%s) != single-cell(variant %d) %v (%s)", i, k, tt, a, hex(a), variant, b, hex(b))
 					}
@@ -783,6 +840,11 @@ func runCase(t []string) *result {
 				}
 			}
 		}
+	}
+
+	if dirtyOut {
+		res.Unwritten = unwritten
+		res.PerOutput = L.N * L.T
 	}
 
 	// (C) recorded run
